@@ -20,10 +20,24 @@ def _accepts(h: Any) -> dict[str, list[type]]:
 
 def on_tick(h: Any, tick: Any, adapter: Any) -> None:
     """(a) per processed add-event tick: the runner-state delta equals the dict-router reference"""
-    if not isinstance(tick, TickAddEvent) or tick.attempts:  # retries are re-queues, not emissions
+    if not isinstance(tick, TickAddEvent):
         return
     r = h.runners[-1]
     if h.pre_runner is not r or h.pre_state is None:
+        return
+    if tick.attempts:
+        # a retry is a re-queue for the step that failed, not a new emission: nobody else may see the event again
+        for name in _accepts(h):
+            pre_ws, post_ws = h.pre_state.workers[name], r.state.workers[name]
+            n_pre = sum(1 for a in pre_ws.queue if a.event is tick.event) + sum(1 for ip in pre_ws.in_progress if ip.event is tick.event)
+            n_post = sum(1 for a in post_ws.queue if a.event is tick.event) + sum(1 for ip in post_ws.in_progress if ip.event is tick.event)
+            want = 1 if name == tick.step_name else 0
+            resolved = [w for w in post_ws.collected_waiters if w.resolved_event is tick.event and
+                        not any(pw.waiter_id == w.waiter_id and pw.resolved_event is tick.event for pw in pre_ws.collected_waiters)]
+            if n_post - n_pre != want or (resolved and name != tick.step_name):
+                h.violate("retry_delivered_beyond_the_failed_step", {"retry_addressed": tick.step_name is not None},
+                          f"retry tick of {type(tick.event).__name__} (attempt {tick.attempts}, step {tick.step_name!r}) -> step {name}: "
+                          f"delivered {n_post - n_pre}x, expected {want}x; waiters resolved {[w.waiter_id for w in resolved]}")
         return
     ev, target = tick.event, tick.step_name
     acc = _accepts(h)
@@ -88,9 +102,13 @@ def final(h: Any, e: Any, state: dict[str, Any]) -> None:
     # (b2) behavioural exactly-once: new-input entries per (step, event)
     entries: Counter = Counter()
     waiting_pairs = set()
+    failed_pairs = set()
     for inv in h.invocations:
         key = (inv.step, id(inv.ev))
-        is_retry = getattr(inv.retry, "retry_number", 0) > 0
+        # a retry is the re-run of an input on which THIS step failed before; anything else is a new entry
+        is_retry = getattr(inv.retry, "retry_number", 0) > 0 and key in failed_pairs
+        if inv.exc is not None and type(inv.exc).__name__ != "WaitingForEvent":
+            failed_pairs.add(key)
         if key in waiting_pairs:  # replay of a step that was waiting on this input
             continue
         if not is_retry:
@@ -231,6 +249,42 @@ def wf_pool_wait(k: int, w: int) -> type:
     ])
 
 
+def wf_retry_siblings() -> type:
+    """a step with a retry policy fails on the first attempt of every input while a sibling accepts the same type: the
+    re-queued input is for the failed step only (one input was broadcast, one was addressed to the flaky step)"""
+    from workflows.retry_policy import retry_policy, stop_after_attempt, wait_fixed
+
+    async def start(self, ctx, ev, inv):  # noqa: ANN001
+        ctx.send_event(Work(uid=1))
+        ctx.send_event(Work(uid=2), step="flaky")
+        return None
+
+    async def flaky(self, ctx, ev, inv):  # noqa: ANN001
+        n = ctx.retry_info().retry_number
+        await gate(f"flaky{ev.uid}#{n}")
+        if n == 0:
+            raise RuntimeError(f"first attempt of Work{ev.uid}")
+        return Done(uid=ev.uid)
+
+    async def steady(self, ctx, ev, inv):  # noqa: ANN001
+        await gate(f"steady{ev.uid}")
+        return Done(uid=10 + ev.uid)
+
+    async def fin(self, ctx, ev, inv):  # noqa: ANN001
+        r = ctx.collect_events(ev, [Done] * 3)
+        if r is None:
+            return None
+        await gate("fin")
+        return StopEvent(result=sorted(e.uid for e in r))
+
+    return make_workflow("RetrySiblings", [
+        make_step("start", [StartEvent], [Work, None], start),
+        make_step("flaky", [Work], [Done], flaky, num_workers=2, retry_policy=retry_policy(wait=wait_fixed(0), stop=stop_after_attempt(3))),
+        make_step("steady", [Work], [Done], steady, num_workers=1),
+        make_step("fin", [Done], [StopEvent, None], fin, num_workers=1),
+    ])
+
+
 def pool_wait_scripts(state: dict[str, Any]) -> list[list[Action]]:
     return [[Action("ext Resp9 broadcast", lambda: state["hd"].ctx.send_event(Resp(uid=9)))]]
 
@@ -297,6 +351,7 @@ def specs(tier: str) -> list[Spec]:
              max_dev=(4 if q else None), tags=("waiter", "pool")),
         Spec("pool_wait(k=4,w=3)", {"waiter_steps": ["work"], "send_when_waiting": True}, lambda: wf_pool_wait(4, 3),
              max_dev=(3 if q else 5), tags=("waiter", "pool")),
+        Spec("retry_siblings", {"waiter_steps": []}, wf_retry_siblings, max_dev=(3 if q else None), tags=("retry",)),
     ]
     return sp
 
@@ -325,7 +380,8 @@ ORACLE = _oracle()
 RULE = ("multi-accept workflow graphs (overlapping exact types, a subclass event, targeted and broadcast "
         "ctx.send_event, returned events, external broadcast/targeted sends, a waiting step that also accepts the "
         "awaited type, field-for-field equal events queued behind a saturated step, a pool step one of whose inputs suspends in "
-        "wait_for_event while its siblings free and re-use worker slots out of start order) x all schedules within the stated deviation bound; per processed add-event tick the runner "
+        "wait_for_event while its siblings free and re-use worker slots out of start order, a step that fails and is retried while a sibling "
+        "accepts the same type) x all schedules within the stated deviation bound; per processed add-event tick the runner "
         "state delta is compared with a dict router, and body entries / UnhandledEvent reports are counted at the "
         "end (runs end only after a fan-in of every delivery); non-trivial = at least one schedule deviation")
 
